@@ -61,9 +61,9 @@ type hist struct {
 
 	// shape facts for the signature
 	sawParallel, sawFallbackSurv, sawFallbackRoot, sawCollapse, sawResolveInWorker, sawParHash bool
-	sawCopy, sawReopen, sawDelAll                                                             bool
-	failed                                                                                    bool
-	cnt                                                                                       map[string]int
+	sawCopy, sawReopen, sawDelAll                                                              bool
+	failed                                                                                     bool
+	cnt                                                                                        map[string]int
 }
 
 func (h *hist) witness(extra map[string]any) map[string]any {
